@@ -427,6 +427,24 @@ def g_dividend_for(rng, K, b, top=None):
     return a if a < Bk else (q * b if q * b < Bk else rem)
 
 
+def g_two_corrections(rng, beta):
+    """(a2,a1,a0,b1,b0) in base beta: b1 barely normalised, b0 close to beta-1, large quotient, and a remainder whose low
+    digit is b0 (+-1): the quotient estimate is then two too large in about a quarter of the draws, and the low digit of
+    the remainder after the first correction is exactly 0 (+-1)"""
+    nb = beta.bit_length() - 1
+    b1 = beta // 2 + rng.choice([0, 0, 1, rng.bits(8), rng.bits(min(40, nb - 2))])
+    b0 = beta - 1 - rng.choice([0, 0, 1, rng.bits(8)])
+    q = rng.choice([beta - 1, beta - 2, rng.bits(nb), rng.bits(nb), beta - 1 - rng.bits(8)])
+    r1 = rng.choice([rng.below(b1), b1 - 1, 0, b1 - 1 - rng.bits(8)])
+    r0 = (b0 + rng.choice([0, 0, 0, 0, -1, 1])) % beta
+    R = r1 * beta + r0
+    Bv = b1 * beta + b0
+    if R >= Bv:
+        R = r0
+    A = q * Bv + R
+    return A // (beta * beta), (A // beta) % beta, A % beta, b1, b0
+
+
 def g_div32(rng, K):
     """(a2,a1,a0,b1,b0) with b1 normalised and (a2,a1) < (b1,b0); aimed at q = B-1 and at one / two corrections"""
     n = 1 << K
@@ -435,6 +453,8 @@ def g_div32(rng, K):
     b1 = (b1 % Bk) | (Bk // 2)
     b0 = rng.choice([Bk - 1, Bk - 2, 0, 1, rng.bits(n), Bk - 1 - rng.bits(20), vf.limbs_value(rng, 1 << (K - 6))])
     Bv = b1 * Bk + b0
+    if rng.chance(1, 3):
+        return list(g_two_corrections(rng, Bk))
     r = rng.below(8)
     if r < 3:
         # a2 = b1: the q = B-1 branch
@@ -496,7 +516,13 @@ def gen_args(rng, K, gen, spec):
     if gen == "3":
         return [g_int(rng, K), g_int(rng, K), g_int(rng, K)]
     if gen == "3d2":
-        return [g_int(rng, K), g_int(rng, K), g_int(rng, K + 1)]
+        b, c = g_int(rng, K), g_int(rng, K)
+        if rng.chance(1, 2):
+            # b*c + d = B^2 - 1 + delta: the carry out of 2^(2^(K+1)) is decided by the last unit, and which of the
+            # internal carry flags (rlow, rlow2, rmid, rmid2, rhigh) produces it varies with the operands
+            delta = rng.choice([-1, 0, 1, 1, 2, rng.bits(8), rng.bits(64), 1 << (1 << (K - 1)), rng.bits(1 << K)])
+            return [b, c, (Bk * Bk - 1 - b * c + delta) % (Bk * Bk)]
+        return [b, c, g_int(rng, K + 1)]
     if gen == "3w":
         return [g_int(rng, K), g_int(rng, K), g_word(rng)]
     if gen in ("1w", "1sw"):
@@ -535,6 +561,18 @@ def gen_args(rng, K, gen, spec):
         if gen == "sh64s" and rng.chance(1, 2):
             a |= h
         return [a, g_shift(rng, K, maxv, ext=(gen == "sh64x"))]
+    if gen == "div" and K >= 7 and rng.chance(1, 4):
+        # normalisation shift d, then the shape above in the second div_3_2<K-1>
+        hb = 1 << (n // 2)
+        d = rng.choice([0, 1, 2, 8, 31, n // 4, n // 2 - 1])
+        a2, a1, a0, b1, b0 = g_two_corrections(rng, hb)
+        b0 = (b0 >> d) << d
+        bb = b1 * hb + b0
+        b = bb >> d
+        R = ((rng.below(b1) * hb + b0) >> d) % b
+        qmax = (Bk - 1 - R) // b
+        q = rng.choice([qmax, qmax - rng.bits(8) if qmax > 256 else qmax, rng.below(qmax + 1), rng.below(qmax + 1)])
+        return [max(q, 0) * b + R, b]
     if gen == "div":
         b = g_divisor(rng, K)
         return [g_dividend_for(rng, K, b), b]
@@ -542,6 +580,16 @@ def gen_args(rng, K, gen, spec):
         mb = 63 if gen == "divw63" else 64
         b = rng.choice([1, 2, 2, 3, 2**32, 2**63 - 1, (2**63) % (1 << mb) or 5, (1 << mb) - 1, g_word(rng, mb) or 1, g_word(rng, mb) or 1])
         return [g_dividend_for(rng, K, b), b]
+    if gen == "div21" and K >= 7 and rng.chance(1, 3):
+        hb = 1 << (n // 2)
+        a2, a1, a0, b1, b0 = g_two_corrections(rng, hb)      # second div_3_2<K-1> of div_2_1<K>
+        b = b1 * hb + b0
+        s = (a2 * hb + a1)                                     # remainder of the first step: any value < b
+        qh = rng.choice([0, 1, hb - 1, rng.bits(n // 2)])
+        hi = qh * b + s                                        # (ah | al.High) = qh*b + s
+        if hi // hb >= b:
+            hi = s
+        return [hi // hb, (hi % hb) * hb + a0, b]
     if gen == "div21":
         b = g_divisor(rng, K)
         b = (b << (n - b.bit_length())) % Bk | h          # normalised
@@ -549,6 +597,13 @@ def gen_args(rng, K, gen, spec):
         return [N // Bk, N % Bk, b]
     if gen == "div32":
         return g_div32(rng, K)
+    if gen == "modn" and K >= 7 and rng.chance(1, 3):
+        hb = 1 << (n // 2)
+        a2, a1, a0, b1, b0 = g_two_corrections(rng, hb)
+        nn = b1 * hb + b0
+        R = rng.below(b1) * hb + (b0 + rng.choice([0, 0, -1, 1])) % hb
+        q = rng.choice([Bk - 1, rng.bits(n), rng.bits(n), Bk - 1 - rng.bits(8)])
+        return [q * nn + (R % nn), nn]
     if gen == "modn":
         nn = g_divisor(rng, K)
         return [g_dividend_for(rng, K + 1, nn), nn]
